@@ -20,10 +20,12 @@ func (c *Int) SetValue(value int) {
 
 func (c *Int) SetMinValue(value int) {
 	c.MinValue = value
+	c.applyRange()
 }
 
 func (c *Int) SetMaxValue(value int) {
 	c.MaxValue = value
+	c.applyRange()
 }
 
 func (c *Int) SetStepValue(value int) {
